@@ -226,6 +226,22 @@ func runC12(c c12Case) kit.Result {
 		}
 	}
 
+	// the parser's debug switch only adds diagnostics: the query means the same with it
+	if n <= 3 && !respelled {
+		ast.EnableQueryDebug.Store(true)
+		dq, derr := ast.Parse(boolSyms{}, text)
+		ast.EnableQueryDebug.Store(false)
+		if derr != nil {
+			res.Err = fmt.Errorf("skeleton %q is rejected when ast.EnableQueryDebug is on: %v", canonical, derr)
+			return res
+		}
+		for assign := uint(0); assign < 1<<uint(n); assign++ {
+			if got, want := dq.EvalBool(boolSyms{assign}), c.Skel.eval(assign); got != want {
+				res.Err = fmt.Errorf("query %q parsed with ast.EnableQueryDebug on, assignment %0*b: got %v, standard grouping gives %v", text, n, assign, got, want)
+				return res
+			}
+		}
+	}
 	// the same skeleton with constant atoms, one query per assignment: an atom that is true under the assignment is
 	// spelled as a constant-true atom, a false one as a constant-false atom. Three families of spellings: the literals
 	// true / false; a range test on an always-null number (null makes "between" false and "not between" true); both
